@@ -47,6 +47,12 @@ def _apply_edits(root, edits):
                 return None
             with open(path, encoding="utf-8") as f:
                 text = f.read()
+        if nth == -1:
+            # every occurrence (renamings)
+            if old not in text:
+                return None
+            overlay[file] = text.replace(old, new)
+            continue
         idx = -1
         start = 0
         for _ in range(nth + 1):
